@@ -24,14 +24,15 @@ def build(mt):
     rec = wrec.base_record(PID, c, mt['lanes'], d, True, mt['inw'])
     rec['has'].update(c13=True, big=True, abuf=mt['actrl'] is not None)
     rec['T2'] = mt['T2']
+    rec['strip'] = bool(mt.get('strip', False))
     cls = getattr(wave_sim, mt['cls'])
     a = np.array(mt['actrl'], dtype=np.int32) if mt['actrl'] is not None else None
     try:
         enc = wrec.Enc()
         T = mt['T2'] / 2.0 if mt['T2'] < 2 * wrec.INF else None
-        w = wrec.run_wave(cls, c, d, mt['lanes'], mt['caps'], mt['inw'], actrl=a, T=T, warmup=mt.get('warm'))
+        w = wrec.run_wave(cls, c, d, mt['lanes'], mt['caps'], mt['inw'], actrl=a, T=T, warmup=mt.get('warm'), strip=mt.get('strip', False))
         rec.update(wrec.observe(w, c, mt['lanes'], enc))
-        big = wrec.run_wave(cls, c, d, mt['lanes'], 64, mt['inw'], T=T)
+        big = wrec.run_wave(cls, c, d, mt['lanes'], 64, mt['inw'], T=T, strip=mt.get('strip', False))
         rec['big'] = dict(port=wrec.observe(big, c, mt['lanes'], enc, lines=False)['port'])
         if a is not None:
             rec['actrl'] = [[int(v) for v in a[x]] for x in range(len(c.lines))]
@@ -54,11 +55,18 @@ def make(ck, rnd, n):
             c = gen.gen_circuit(rnd, max_gates=ck.pick(8, 14), max_ff=2, kinds=['XOR2', 'XNOR2', 'XOR3', 'XOR4', 'BUF1', 'INV1'] if xorish else None)
         lanes = rnd.choice([1, 2, 4])
         d = gen.rand_delays(rnd, c, vals=(0, 1) if parity else (0, 1, 2, 3, 5))
+        strip = rnd.random() < 0.3
+        if strip:
+            for f in c.forks.values():
+                for l in f.ins:
+                    if l is not None:
+                        d[:, l.index] = 0
         T2 = rnd.choice([2 * wrec.INF, 2 * rnd.randint(0, 20), 2 * rnd.randint(0, 20) + 1, 2 * rnd.randint(0, 12)])
         actrl = wsim.rand_actrl(rnd, c).tolist() if rnd.random() < 0.7 else None
-        mt = dict(circuit=gen.circuit_state(c), lanes=lanes, delays=d.tolist(), caps=rnd.choice([4, 4, 8]), inw=wrec.rand_inputs(rnd, c, lanes, multi=True, tmax=40 if parity else 12),
+        percap = [rnd.choice([4, 8, 16]) for _ in range(len(c.lines) + 3)]
+        mt = dict(strip=strip, circuit=gen.circuit_state(c), lanes=lanes, delays=d.tolist(), caps=rnd.choice([4, 4, 8, percap]), inw=wrec.rand_inputs(rnd, c, lanes, multi=True, tmax=40 if parity else 12),
                   cls=rnd.choice(['WaveSim', 'WaveSimCuda']), T2=T2, actrl=actrl, warm=wrec.rand_inputs(rnd, c, lanes, multi=True, tmax=12) if rnd.random() < 0.4 else None)
-        mt['desc'] = '%s caps=%s T=%s actrl=%s' % (mt['cls'], mt['caps'], 'TMAX' if T2 >= 2 * wrec.INF else T2 / 2, actrl is not None)
+        mt['desc'] = '%s caps=%s strip=%s T=%s actrl=%s' % (mt['cls'], mt['caps'] if isinstance(mt['caps'], int) else 'per-line', strip, 'TMAX' if T2 >= 2 * wrec.INF else T2 / 2, actrl is not None)
         recs.append(build(mt))
         metas.append(mt)
     return recs, metas
